@@ -447,6 +447,83 @@ theorem reach_inv (hinj : Function.Injective C.hash) (evs : List (Ev Sig))
 
 end
 
+/-! ## The driver's composite `broadcast` is a run of primitive events -/
+
+theorem run_append (w : World Digest) (xs ys : List (Ev Sig)) :
+    run C E cfg w (xs ++ ys) = run C E cfg (run C E cfg w xs) ys := by
+  induction xs generalizing w with
+  | nil => rfl
+  | cons e es ih => exact ih _
+
+theorem collect_run (a : Peer) (id : Bytes) (P : Payload) (ov : Peer → Option (Option Sig)) (self : Sig) :
+    ∀ (hs : List Peer) (w : World Digest), ∃ evs : List (Ev Sig),
+      (collect C E cfg a id P ov self hs w).1 = run C E cfg w evs ∧
+      ∀ e ∈ evs, ∃ h, e = .sigReq h a id P
+  | [], w => ⟨[], rfl, by simp⟩
+  | h :: hs, w => by
+    unfold collect
+    split
+    · obtain ⟨evs, he, hall⟩ := collect_run a id P ov self hs w
+      exact ⟨evs, he, hall⟩
+    · split
+      · obtain ⟨evs, he, hall⟩ := collect_run a id P ov self hs w
+        exact ⟨evs, he, hall⟩
+      · obtain ⟨evs, he, hall⟩ := collect_run a id P ov self hs (step C E cfg w (.sigReq h a id P)).1
+        refine ⟨.sigReq h a id P :: evs, he, ?_⟩
+        intro e hm
+        simp only [List.mem_cons] at hm
+        rcases hm with rfl | hm
+        · exact ⟨h, rfl⟩
+        · exact hall e hm
+
+theorem sendAll_run (a : Peer) (id : Bytes) (P : Payload) (ov : Peer → Option (Option Sig)) (sigs : List Sig) :
+    ∀ (hs : List Peer) (w : World Digest), ∃ evs : List (Ev Sig),
+      (sendAll C E cfg a id P ov sigs hs w).1 = run C E cfg w evs ∧
+      ∀ e ∈ evs, ∃ h, e = .msg h a id P sigs
+  | [], w => ⟨[], rfl, by simp⟩
+  | h :: hs, w => by
+    unfold sendAll
+    split
+    · exact sendAll_run a id P ov sigs hs w
+    · split
+      · obtain ⟨evs, he, hall⟩ := sendAll_run a id P ov sigs hs w
+        exact ⟨evs, he, hall⟩
+      · obtain ⟨evs, he, hall⟩ := sendAll_run a id P ov sigs hs (step C E cfg w (.msg h a id P sigs)).1
+        refine ⟨.msg h a id P sigs :: evs, he, ?_⟩
+        intro e hm
+        simp only [List.mem_cons] at hm
+        rcases hm with rfl | hm
+        · exact ⟨h, rfl⟩
+        · exact hall e hm
+
+/-- `client.Broadcast` (the composite used by the driver) is a run of primitive events: one
+`cstart`, then `sigReq`s of requester `a`, then `msg`s of sender `a`. -/
+theorem broadcast_run (w : World Digest) (a : Peer) (id : Bytes) (P : Payload)
+    (ov : Peer → Option (Option Sig)) :
+    ∃ evs : List (Ev Sig), (broadcast C E cfg w a id P ov).1 = run C E cfg w (.cstart a id P :: evs) ∧
+      ∀ e ∈ evs, (∃ h, e = .sigReq h a id P) ∨ (∃ h sigs, e = .msg h a id P sigs) := by
+  unfold broadcast
+  split
+  · rename_i w1 self hst
+    obtain ⟨e1, h1, a1⟩ := collect_run C E cfg a id P ov self cfg.peers w1
+    simp only
+    split
+    · split
+      · obtain ⟨e2, h2, a2⟩ := sendAll_run C E cfg a id P ov
+          ((collect C E cfg a id P ov self cfg.peers w1).2.2.filterMap fun x => x) cfg.peers
+          (collect C E cfg a id P ov self cfg.peers w1).1
+        refine ⟨e1 ++ e2, ?_, ?_⟩
+        · simp only [run, hst, run_append]; rw [← h1]; exact h2
+        · intro e hm
+          rcases List.mem_append.mp hm with hm | hm
+          · exact .inl (a1 e hm)
+          · obtain ⟨h, rfl⟩ := a2 e hm; exact .inr ⟨h, _, rfl⟩
+      · exact ⟨e1, by simp only [run, hst]; exact h1, fun e hm => .inl (a1 e hm)⟩
+    · exact ⟨e1, by simp only [run, hst]; exact h1, fun e hm => .inl (a1 e hm)⟩
+  · rename_i w1 o hne hst
+    obtain ⟨e1, h1, a1⟩ := collect_run C E cfg a id P ov (C.sign a (C.hash [])) (cfg.peers.takeWhile (· != a)) w1
+    exact ⟨e1, by simp only [run, hst]; exact h1, fun e hm => .inl (a1 e hm)⟩
+
 /-! ## Concrete scenarios (symbolic crypto `symC`) used by witnesses and non-vacuity examples -/
 
 namespace Witness
